@@ -21,7 +21,8 @@ EXPLANATION = (
     'ValueError (out-of-range indexes never become symbols); every overriding modulate guards its input and raises '
     'ValueError. C01.c: symbols/_M/_K are written only by Modulator.__init__ and setConstellation, which derives M '
     'and K from the very table it stores (DSF: no public entry leaves them inconsistent). Not decided: '
-    'demodulate(modulate(i)) == i, nearest-symbol decision, unit mean energy, distinct points (numeric).')
+    'demodulate(modulate(i)) == i, nearest-symbol decision, unit mean energy, distinct points (numeric).'
+    ' General rules also applied here (see DESIGN 10.5): validate-before-commit (no `raise` reachable after the object was already changed in a public mutator); input immutability (no in-place modification of an array argument, alias- and view-aware).')
 
 
 def _raising_tests(fn: FuncInfo, names: Set[str]) -> Set[int]:
